@@ -1286,6 +1286,25 @@ def _decide_guard(self, fn, ob, scope):
                     ob.verdict = VIOLATION
                     ob.why = "table of %d entries indexed by raw input byte (range 0..%d) with no bound check" % (ln[1], hi)
                     return ob
+    # a length test that compares exactly the quantities of the open goal but with a smaller constant: the author tested
+    # the right things and left part of the extent out (a header, a length prefix) - values that pass the test and break
+    # the bound exist
+    if ob.kind in ("slice", "sliceto", "slicefrom", "index"):
+        facts_here = self.facts(fn, ob.block)
+        for g, text in og:
+            gn = lin_norm(g)
+            if not gn[1]:
+                continue
+            for f in facts_here:
+                if f[0] != "le":
+                    continue
+                fl = lin_norm(f[1])
+                if fl[1] == gn[1] and fl[0] < gn[0] and gn[0] - fl[0] <= 64:
+                    ob.verdict = VIOLATION
+                    ob.why = ("%s is not implied by the test before it, which compares the same quantities but admits %d more than "
+                              "fit: inputs in that window pass the test and index out of range (a panic where an error is due)"
+                              % (text, gn[0] - fl[0]))
+                    return ob
     worst, atoms = self.classify_open(fn, ob, og)
     has_param = any(self.atom_class(fn, a) == "param" and not (a[0] == "len") for a in atoms)
     what = "; ".join(t for _, t in og)
